@@ -267,10 +267,10 @@ def _write_code_tree(bw, tab, style, num_codes_style, rng):
     return canonical_codes(ls), num_codes >= 10
 
 
-def _write_offset_tree(bw, tab, n, rng, style):
+def _write_offset_tree(bw, tab, n, rng, style, single_len=None):
     """Returns codes or None (single)."""
     if tab[0] == "single":
-        l = 1 if style != "random" else rng.randint(1, 7)
+        l = single_len or (1 if style != "random" else rng.randint(1, 7))
         for i in range(n):
             bw.put(l if i == tab[1] else 0, 3)
         return None
@@ -325,7 +325,8 @@ def encode(cmds, method="-pm2-", strategy="huffman", offset_strategy=None, rebui
                        next redefinition.
       tables           {point: {"code": lengths | ("single", sym), "offset": lengths |
                        ("single", sym)}} explicit tables (lists indexed by symbol, or {sym: len}
-                       dicts).  An explicit "code" entry at an optional point forces the
+                       dicts).  An offset list with exactly one non-zero length is the single
+                       form (zero bits per symbol) and that length value is written as given.  An explicit "code" entry at an optional point forces the
                        redefinition there.
       header_style     "tight": min = smallest length (at most 7), field width as small as
                        possible; "loose": min = 1, width 7; "random"
@@ -419,6 +420,12 @@ def encode(cmds, method="-pm2-", strategy="huffman", offset_strategy=None, rebui
                     break
             n_here = num_offsets(k)
             tab = _norm_table(tables.get(k, {}).get("offset"), 8)
+            single_len = None
+            if tab is not None and tab[0] == "table" and sum(1 for l in tab[1] if l) == 1:
+                # explicit list with one non-zero entry: that *is* the single form; keep its value
+                sym = next(i for i, l in enumerate(tab[1]) if l)
+                single_len = tab[1][sym]
+                tab = ("single", sym)
             freq = span_freq(k, odefs, "offset")
             if tab is None:
                 tab = _choose(freq, n_here, pick(offset_strategy, k), 7, OFFSET_TREE_LEN)
@@ -435,7 +442,7 @@ def encode(cmds, method="-pm2-", strategy="huffman", offset_strategy=None, rebui
                 if not tree_fits(tab[1], OFFSET_TREE_LEN):
                     raise ValueError("point %d: offset tree does not fit" % k)
                 stats["max_offset_len"] = max(stats["max_offset_len"], max(tab[1]))
-            ocodes = _write_offset_tree(bw, tab, n_here, rng, pick(header_style, k))
+            ocodes = _write_offset_tree(bw, tab, n_here, rng, pick(header_style, k), single_len)
             cur_off_tab = tab
             stats["offset_defs"] += 1
         # ---------- commands of this segment
